@@ -39,6 +39,8 @@ def gen(draw):
         case["phased_vcf_enc_hp"] = draw(st.booleans())
     # the reads may arrive in two alignment files whose read names coincide (names need only be unique within a file)
     case["two_files"] = draw(st.integers(0, 3)) == 0
+    # single-sample input whose BAM has no read groups at all: --ignore-read-groups
+    case["no_read_groups"] = len(samples) == 1 and draw(st.integers(0, 4)) == 0
     # reads of a REF-carrying haplotype may end (after >= 2 bases) or start inside the REF allele of a deletion / MNP
     for sp in case["read_specs"]:
         if draw(st.integers(0, 5)) != 0:
@@ -188,6 +190,10 @@ class TruthPart:
             kw["samples"] = list(o["samples"])
         if o["chromosomes"]:
             kw["chromosomes"] = list(o["chromosomes"])
+        if case.get("no_read_groups") and not case.get("two_files"):
+            bams = [G.write_bam(case, reads, os.path.join(d, "reads_norg.bam"), read_groups=False)]
+            kw["ignore_read_groups"] = True
+            ctx.label("no-read-groups")
         inputs = list(bams)
         if case.get("phased_vcf_input"):
             ph = {s: {cn: {vi: 7 for vi in vis} for cn, vis in per.items()} for s, per in case["phased_vcf_subset"].items()}
